@@ -360,6 +360,9 @@ def p_C04(ctx):
 
 def p_C05(ctx):
     flow_trace(ctx, "group", 5500, 60000, chunk=250, extra=["--focus", "mul"])
+    # the edge scalars (0, 1, r-1, single bits, zero limbs) also under the dev profile: overflow checks and debug assertions
+    # make "k*P panics" a profile-dependent outcome (seeded change mD-C05); same driver, same specification
+    flow_trace(ctx, "group", 1500, 8000, profile="dev", chunk=250, extra=["--focus", "mul"], label="group-dev")
     flow_symwalk(ctx, acts={"mul"}, mode="constructive")
 
 
